@@ -273,8 +273,13 @@ func (g *c16Gen) initcode() []byte {
 		a.push(7).push(1).op(opSSTORE).op(opINVALID)
 		g.count("gen:init=sstore-invalid")
 	case 4: // code too large
-		a.push(uint64(24577 + g.r.Intn(3000))).push(0).op(opRETURN)
-		g.count("gen:init=too-large")
+		if g.r.Intn(2) == 0 {
+			a.push(uint64(24575 + g.r.Intn(4))).push(0).op(opRETURN) // around the MaxCodeSize boundary (24576 is the last accepted)
+			g.count("gen:init=codesize-boundary")
+		} else {
+			a.push(uint64(24577 + g.r.Intn(3000))).push(0).op(opRETURN)
+			g.count("gen:init=too-large")
+		}
 	case 5: // large code: code-store out of gas likely
 		a.push(uint64(200 + g.r.Intn(5000))).push(0).op(opRETURN)
 		g.count("gen:init=large")
